@@ -93,6 +93,16 @@ def eval_matrix() -> list[str]:
     return list(EVAL_FORMS)
 
 
+CALL_ARGS = ["a", "*a", "**k", "k=1", "a for a in b", "*a for a in b", "**k for x in y", "k=1 for x in y", "k=v := 1", "a := 1", "k=*a", "(yield)", "lambda: 0", "*a, ", ""]
+
+
+def call_matrix() -> list[str]:
+    out = [f"f({x})\n" for x in CALL_ARGS]
+    out += [f"f({x}, {y})\n" for x in CALL_ARGS for y in CALL_ARGS if x and y]
+    out += [f"class C({x}): pass\n" for x in CALL_ARGS] + [f"@d({x})\ndef g(): pass\n" for x in CALL_ARGS] + [f"y = a.b({x})[0]\n" for x in CALL_ARGS]
+    return out
+
+
 def operand_matrix() -> list[str]:
     return [t.replace("%s", o) for t in TEMPLATES for o in OPERANDS]
 
@@ -191,6 +201,8 @@ def check(run: Run) -> None:
     # 6. which expression forms each restricted operand position admits (CPython decides)
     for t in operand_matrix():
         add(t, "exec", "operand-matrix")
+    for t in call_matrix():
+        add(t, "exec", "call-matrix")
     for t in eval_matrix():
         if not any(x in t for x in ("$", "p'")):
             add(t, "eval", "eval-matrix")
